@@ -31,6 +31,9 @@ CLAIMED = {
  "C16": dict(text="Symbolic unit tangents, exact arccos comparison through monotonicity; the flagged-junction set, the excluded interfaces, the -1 re-insertion and the restricted system are each compared with an oracle computed from the tissue description, for every tangent configuration.",
              note="T3, K3 (K4 thorough); limits 0.5pi..pi, default, inf; cos(limit) is the nearest double; back-end contracts as in C05.",
              ref="3/C16"),
+ "C18": dict(text="Every cell pressure and interface tension is a symbol, so each entry of each grid cell's tensor produced by the real stress_tensor code is a linear form; symmetry, exact zero outside the radius, joint linearity, the isotropic limit and the pairing of eigen-systems with grid centres are decided for all assignments at once.",
+             note="Geometry concrete (catalogue tissues with curved interfaces); np.linalg.eig replaced by a token; grid 1..4 quick, 1..12 thorough.",
+             ref="3/C18"),
  "C20": dict(text="Bounded symbolic execution (symx) of the real Cell methods on polygons with 3..8 symbolic vertices; every identity / sign / navigation obligation is decided by z3 on every path, so it holds for all real coordinates inside the bound, not for samples.",
              note="Floats as reals; polygons up to 8 vertices; star-shaped polygons for the sign convention; scipy leastsq (cell centre, unused here) stubbed.",
              ref="3/C20"),
